@@ -7,4 +7,5 @@ INVARIANT HVOfFront
 INVARIANT HVMonotone
 INVARIANT HVSubmodular
 INVARIANT GreedyMeetsBound
+INVARIANT SweepEqualsCells
 CHECK_DEADLOCK FALSE
